@@ -135,6 +135,22 @@ func evmEncodeOp(kind string) OpFunc {
 		if err != nil {
 			return resErr(evmErrClass(err), err)
 		}
+		if !heldUnchanged(b, func() {
+			// the next channel's report of the same round
+			r2 := r
+			r2.ChannelID++
+			r2.ObservationTimestampNanoseconds += 1_000_000_000
+			switch kind {
+			case "premium":
+				evm.NewReportCodecPremiumLegacy(logger.Nop(), 1).Encode(r2, cd)
+			case "unpacked":
+				evm.NewReportCodecEVMABIEncodeUnpacked(logger.Nop(), 1).Encode(r2, cd)
+			case "streamlined":
+				evm.NewReportCodecStreamlined().Encode(r2, cd)
+			}
+		}) {
+			return clobbered("report codec Encode (" + kind + ")")
+		}
 		return resOK(J{"b": hexs(b), "d": evmRead(kind, in, b)})
 	}
 }
